@@ -101,22 +101,26 @@ def build_scope(sc, sid):
     kind = sc["kind"]
     code = CODE.get(kind, kind)
     one, two, decl = STMT[kind]
-    slot = sc["slot"]
+    slots = {sc["slot"], sc.get("slot2", "none")}
     comment = "// @ignore " + list_text(sc["list"], code)
     f1 = []
     pos = {}
 
     def row(text, anchor=None, trail=None):
-        if trail and slot == trail:
+        if trail and trail in slots:
             text = text + " " + comment
         f1.append(text)
         if anchor:
             pos[anchor] = ("u/f1.go", len(f1))
 
     def slotrow(name, indent=""):
-        if slot == name:
+        if name in slots:
             f1.append(indent + comment)
 
+    if "F0d" in slots:
+        # detached from the package clause by a blank line: still before it
+        f1.append(comment)
+        f1.append("")
     slotrow("F0")
     row("package u")
     row("")
@@ -149,7 +153,7 @@ def build_scope(sc, sid):
         row("\t_ = v16")
     row("}")
     f2 = []
-    if slot == "G0":
+    if "G0" in slots:
         f2.append(comment)
     f2 += ["package u", "", 'import "m/d"', "", "func fn4(p *d.T, s d.S) {"]
     f2.append("\t" + fmt(one, 17))
@@ -158,9 +162,9 @@ def build_scope(sc, sid):
         f2.append("\t_ = v17")
     f2.append("}")
     f2.append("")
-    if slot == "D5":
+    if "D5" in slots:
         f2.append(comment)
-    f2.append(fmt(decl, 18).replace("g2", "g5") + ((" " + comment) if slot == "TD5" else ""))
+    f2.append(fmt(decl, 18).replace("g2", "g5") + ((" " + comment) if "TD5" in slots else ""))
     pos["b5"] = ("u/f2.go", len(f2))
     h = ["package u", "", 'import "m/d"', "", "var gp *d.T", "", "var gs d.S", "", "var _ = gp", ""]
     prog = {"id": sid, "pkgs": [
